@@ -71,3 +71,28 @@ Theorem C18_allow_dict_unsupported_refuted :
   /\ forget (run all_valid (tbl_matches w4_mt) (with_flag 3 placement_actual) w4_cfg (absf "docs/x.md"))
     = spec all_valid (tbl_matches w4_mt) w4_cfg (absf "docs/x.md").
 Proof. split; vm_compute; [discriminate|reflexivity]. Qed.
+
+(* `lib/` (depth 2 because of the empty last component) ties with `lib/core` and, listed first, judges
+   lib/core/x.py although lib/core is the most specific containing directory *)
+Definition w5_cfg : config := {|
+  c_dirs := Some [("lib/", {| r_allow := None; r_deny := Some [DDict "x" (Some "LIB") None] |});
+                  ("lib/core", {| r_allow := None; r_deny := Some [DDict "x" (Some "CORE") None] |})];
+  c_gdeny := None; c_gpat := None |}.
+Definition w5_mt := [("x", "lib/core/x.py", true)].
+Theorem C18_trailing_slash_depth_refuted :
+  forget (run all_valid (tbl_matches w5_mt) placement_actual w5_cfg (absf "lib/core/x.py"))
+    <> spec all_valid (tbl_matches w5_mt) w5_cfg (absf "lib/core/x.py")
+  /\ forget (run all_valid (tbl_matches w5_mt) (with_flag 4 placement_actual) w5_cfg (absf "lib/core/x.py"))
+    = spec all_valid (tbl_matches w5_mt) w5_cfg (absf "lib/core/x.py").
+Proof. split; vm_compute; [discriminate|reflexivity]. Qed.
+
+(* a key written with a trailing slash is NOT subject to the bare-prefix defect: `lib/` does not cover
+   lib64/x.py or library.txt in the current tree (regression witness: faithful model = specification) *)
+Definition w6_cfg : config := {|
+  c_dirs := Some [("lib/", {| r_allow := Some []; r_deny := None |})]; c_gdeny := None; c_gpat := None |}.
+Theorem C18_trailing_slash_key_is_not_a_bare_prefix :
+  forget (run all_valid (tbl_matches []) placement_actual w6_cfg (absf "lib64/x.py")) = spec all_valid (tbl_matches []) w6_cfg (absf "lib64/x.py")
+  /\ forget (run all_valid (tbl_matches []) placement_actual w6_cfg (absf "library.txt")) = spec all_valid (tbl_matches []) w6_cfg (absf "library.txt")
+  /\ spec all_valid (tbl_matches []) w6_cfg (absf "lib/x.py")
+     = SReports [("lib/x.py", 1, 0, "File 'lib/x.py' does not match allowed patterns for lib/")].
+Proof. vm_compute. repeat split; reflexivity. Qed.
